@@ -43,7 +43,14 @@ def main():
                    baseline_off_cmd=BASELINE, source_commits=[], add_only=True),
         engines=[
             dict(name="pbt", path="driver/pbt_main.cpp", serves_properties=[c["property_id"] for c in checks], kind_free_text="rapidcheck generators -> case text -> executor (C ABI) with reference model"),
-            dict(name="replay", path="driver/replay_main.cpp", serves_properties=[c["property_id"] for c in checks], kind_free_text="bare re-execution of one saved case"),
+            dict(name="enum", path="driver/enum_main.cpp", serves_properties=["C01", "C02", "C03", "C08", "C09", "C10", "C11", "C12"],
+                 kind_free_text="exhaustive enumeration of small scopes (every graph on n vertices x insertion orders x single mutators) through the same executors"),
+            dict(name="fuzz", path="driver/fuzz_main.cpp", serves_properties=["C13", "C15", "C17", "C19"],
+                 kind_free_text="libFuzzer (coverage-guided, ASan+UBSan): bytes decoded into files / histories / weighted graphs, semantic oracle inside the target; seed corpora and dictionaries under fuzzseeds/"),
+            dict(name="hypothesis-programs", path="lib/c20_hyp.py", serves_properties=["C20"],
+                 kind_free_text="Hypothesis-generated client programs (label kind x standard x compiler x header order x snippets from progmatrix/catalogue.py); compilers, linker and exit status as oracle"),
+            dict(name="replay", path="driver/replay_main.cpp", serves_properties=[c["property_id"] for c in checks],
+                 kind_free_text="bare re-execution of one saved case, or of a sequence of cases in one process (failures that need earlier calls)"),
         ],
         checks=checks,
         not_applicable=na,
